@@ -184,6 +184,14 @@ func registerSynth(_ []SynthPlugin, rec *synthRecorder) {
 	reg(&plugins.Plugin{Name: "syn6", Setup6: mk6})
 	reg(&plugins.Plugin{Name: "synfail", Setup4: func(...string) (handler.Handler4, error) { return nil, errors.New("synthetic setup failure") },
 		Setup6: func(...string) (handler.Handler6, error) { return nil, errors.New("synthetic setup failure") }})
+	// like dns/router/staticroute on a malformed argument: the error comes with a usable handler
+	reg(&plugins.Plugin{Name: "synfailh", Setup4: func(a ...string) (handler.Handler4, error) {
+		h, _ := mk4("pass", "98")
+		return h, errors.New("synthetic setup failure (handler returned as well)")
+	}, Setup6: func(a ...string) (handler.Handler6, error) {
+		h, _ := mk6("pass", "98")
+		return h, errors.New("synthetic setup failure (handler returned as well)")
+	}})
 	reg(&plugins.Plugin{Name: "synnil", Setup4: func(...string) (handler.Handler4, error) { return nil, nil },
 		Setup6: func(...string) (handler.Handler6, error) { return nil, nil }})
 }
